@@ -228,8 +228,11 @@ def check_sites(prog, rep, R):
         return
     new_b = find_body(prog, BV + "::new")
     forms = []
+    I_cur = [None]
 
     def size_form(msg, encs, p0):
+        # only sizes measured with the payload taken out count (see blockutil.model_to_bytes)
+        encs = [e for e in encs if len(I_cur[0].syminfo.get(e, ())) > 3 and I_cur[0].syminfo[e][3] == "bare"]
         if isinstance(msg, IntV) and isinstance(p0, VecV):
             if any(msg.aff == Aff.sym(e) + p0.len for e in encs):
                 return "A"
@@ -312,6 +315,7 @@ def check_sites(prog, rep, R):
         rep.missing("C10.5", "BlockHandler::intercept_response")
     else:
         I = tr.I
+        I_cur[0] = I
         site = {"file": tr.body["span"]["f"], "line": tr.body["span"]["l"], "fn": tr.body["path"]}
         hi = blockutil.idx(prog, "block_handler::BlockHandler", "config")
         ci = blockutil.idx(prog, "block_handler::BlockHandlerConfig", "max_total_message_size")
@@ -365,6 +369,7 @@ def check_sites(prog, rep, R):
     body, req_arg, budget_i = anchor
     tr = Trace(prog, None, body=body, req_arg=req_arg, setup=setup_common)
     I = tr.I
+    I_cur[0] = I
     site = {"file": body["span"]["f"], "line": body["span"]["l"], "fn": body["path"]}
     req_msg = tr.req_payload_place.parent() if hasattr(tr.req_payload_place, "parent") else Place(tr.req_payload_place.key, tr.req_payload_place.proj[:-1])
     cfg_place1 = blockutil.config_budget_place(prog, tr) if budget_i is None else None
